@@ -335,6 +335,10 @@ impl<'ast> Visit<'ast> for BodyScan {
         if expr_root_is_self(&a.left) {
             self.assigns_self = true;
         }
+        // `*p = v` / `*p.add(i) = v`: a store through a pointer or reference
+        if matches!(&*a.left, syn::Expr::Unary(u) if matches!(u.op, syn::UnOp::Deref(_))) {
+            self.writes.push("*place = value".into());
+        }
         syn::visit::visit_expr_assign(self, a);
     }
     fn visit_expr_binary(&mut self, b: &'ast syn::ExprBinary) {
